@@ -18,8 +18,8 @@ SPEC = {
     "assumptions": [
         "session-level statement: every committed change reaches the observer's queue as exactly one responder, in commit order (FIFO loss-free update queue, filters); change_target_known shows the message filter cannot drop it inside the invariant; the delivery path itself is covered by the wire-level oracle, not by theorem",
         "the database never reuses a UID and hands UIDs out in increasing order (Mbox.Admissible: a new message gets a UID >= UIDNext); this gives the named hypothesis UidsOk",
-        "flush_false_* and converges carry the named hypotheses FetchSafe (no flag change queued behind a held-back re-add, defect #10) and NoOwnHeld (no held-back EXISTS created by the session itself, defect #8); both excluded cases are witnessed by flush_false_counterexample_fetch_after_held_readd / flush_false_counterexample_own_readd_held",
+        "flush_false_replay_eq / flush_false_keeps_invariant hold for every queue inside UidsOk (witness that it is needed: flush_false_needs_fresh_uids, a reused UID); converges needs admissibility of the changes only. The former hypotheses FetchSafe / NoOwnHeld (defects #10, #8) are gone since gluon commit 'fix: while a re-added message is held back, later EXISTS and its flag changes are held back too'; the two former counter-examples are regression examples in Theorems/C02.lean and corpus/C02/defect*.ops",
         "flushes inside a CLOSE context are not part of a history (the mailbox is deselected right after); \\Recent is ignored as the property says",
     ],
-    "explanation": "Lean theorems: a responder acts on a snapshot showing the mailbox exactly as the change acts on the mailbox (change_step); a permit=true flush of a converging session leaves the snapshot identical to the mailbox (flush_true_converges); inside the named hypotheses a permit=false flush placed anywhere keeps the invariant, by exact equality of the final snapshots (flush_false_replay_eq_partial); induction over arbitrary histories of changes and flushes (converges). Model tied to the real flushResponses by differential testing; the judge replays the queue the implementation retained on the snapshot the implementation left and compares with queue-order replay.",
+    "explanation": "Lean theorems: a responder acts on a snapshot showing the mailbox exactly as the change acts on the mailbox (change_step); a permit=true flush of a converging session leaves the snapshot identical to the mailbox (flush_true_converges); a permit=false flush placed anywhere keeps the invariant, by exact equality of the final snapshots (flush_false_replay_eq, under the database's UID contract UidsOk); induction over arbitrary histories of changes and flushes (converges). Model tied to the real flushResponses by differential testing; the judge replays the queue the implementation retained on the snapshot the implementation left and compares with queue-order replay.",
 }
